@@ -14,7 +14,8 @@ Record mstate := mkM { m_epoch : epoch; m_hooks : list Z }.
 Inductive mop :=
 | MCreate (bad : list Z)            (* anyone; `bad` = the hook contracts that would reject the notification now (oracle) *)
 | MAddHook (admin : bool) (h : Z)   (* admin = the sender is the ADMIN *)
-| MRemoveHook (admin : bool) (h : Z).
+| MRemoveHook (admin : bool) (h : Z)
+| MSetGenesis (admin : bool) (g : Z).   (* UpdateConfig { epoch_config: { duration unchanged, genesis_epoch: g } }: the clock is not touched *)
 
 (* result of an accepted call: new state + the hook notifications emitted (contract, epoch carried) in order *)
 Definition mcreate (duration now : Z) (s : mstate) (bad : list Z) : outcome (mstate * list (Z * epoch)) :=
@@ -42,6 +43,9 @@ Definition mstep (duration now : Z) (s : mstate) (o : mop) : outcome (mstate * l
       do _ <- ensure admin E_OTHER;
       do _ <- ensure (existsb (Z.eqb h) (m_hooks s)) E_OTHER;                (* HookNotRegistered *)
       Ok (mkM (m_epoch s) (remove_first h (m_hooks s)), [])
+  | MSetGenesis admin _ =>
+      do _ <- ensure admin E_OTHER;
+      Ok (s, [])
   end.
 
 Definition mevent := (Z * mop)%type.
